@@ -235,6 +235,7 @@ def jobs(prop, tier, seed):
                 out.append(dict(harness="C12", variant=direction, pid=f"{name}/{w}", scenario=name, wrapper=w, opts={}, bounds=b, budget_s=30 if q else 120))
         out.append(dict(harness="C12", variant="schema", pid=f"{name}/schema", scenario=name, wrapper="plain", opts={}, bounds={}, budget_s=20))
     out.append(dict(harness="C12", variant="recursive", pid="recursive/field", scenario="registered", wrapper="plain", opts={}, bounds={}, budget_s=40))
+    out.append(dict(harness="C12", variant="subpair", pid="sub_conversion/pair", scenario="sub_conversion", wrapper="plain", opts={}, bounds=dict(depth=2, width=2, strlen=2, budget=1), budget_s=30))
     out.append(dict(harness="C12", variant="locality", pid="dynamic/locality", scenario="dynamic", wrapper="field", opts={}, bounds={}, budget_s=20))
     return out
 
@@ -570,5 +571,51 @@ def unname(schema):
     return go(dict(schema))
 
 
+class SubPair:
+    """two conversions in one process that differ by their sub_conversion only: each behaves
+    as its own composition (the method caches are keyed by the conversion)"""
+
+    SRC = SCENARIOS["sub_conversion"]["src"] + (
+        "def foo_to_neg(x: Foo) -> int:\n    return -x.v\ndef foo_from_neg(i: int) -> Foo:\n    return Foo(-i)\n"
+    )
+
+    def __init__(self, job):
+        from apischema import ValidationError, deserialization_method, serialization_method
+
+        self.job = job
+        self.prog = build(job["pid"], lst(INT), COMMON + self.SRC)
+        ns = self.prog.module.__dict__
+        self.ns = ns
+        C, T = ns["Conversion"], eval("Q[Foo]", ns)
+        self.ser = [serialization_method(T, conversion=C(ns["q_to"], sub_conversion=ns[g])) for g in ("foo_to", "foo_to_neg")]
+        self.de = [deserialization_method(T, conversion=C(ns["q_from"], sub_conversion=ns[f])) for f in ("foo_from", "foo_from_neg")]
+        self.VE = ValidationError
+        self.bounds = bounds_of(job)
+        self.functions = sorted(set(sum((method_classes(self_of(m)) for m in self.ser + self.de), []))) + [
+            "apischema.serialization.serialization_method_factory (@cache, keyed by the conversion)"
+        ]
+        self.expect_tags = ["compared"]
+        self.assumptions = []
+        self.relax = ()
+
+    def body(self, ctx: Ctx):
+        xs = [ctx.int("x") for _ in range(ctx.choice(3, "len"))]
+        ctx.witness = xs
+        ctx.run_phase()
+        ctx.notes["tag:compared"] = True
+        Q, Foo = self.ns["Q"], self.ns["Foo"]
+        v = Q([Foo(x) for x in xs])
+        for i, sign in ((0, 1), (1, -1)):
+            out = self.ser[i](v)
+            if not same(out, [sign * x for x in xs]):
+                return Failure("sub_conversion-of-another-conversion-applied", witness=xs, extra={"which": i, "out": out})
+            back = self.de[i](list(xs))
+            if not same(back.items, [Foo(sign * x) for x in xs]):
+                return Failure("sub_conversion-of-another-conversion-applied", witness=xs, extra={"which": i, "back": back.items})
+        return None
+
+
 def make(job):
+    if job["variant"] == "subpair":
+        return SubPair(job)
     return Recursive(job) if job["variant"] == "recursive" else Inst(job)
